@@ -21,7 +21,13 @@ VERIF = os.path.dirname(HERE)
 
 
 def copy_repo(dst):
-    subprocess.run(["rsync", "-a", "--exclude", "target", "--exclude", ".git", "/repo/", dst + "/"], check=True)
+    # the committed tree (HEAD), not the working tree: tool/try_seeds.sh may have a seed applied to
+    # /repo at the same moment
+    ar = subprocess.Popen(["git", "-C", "/repo", "archive", "HEAD"], stdout=subprocess.PIPE)
+    subprocess.run(["tar", "-x", "-C", dst], stdin=ar.stdout, check=True)
+    ar.stdout.close()
+    if ar.wait() != 0:
+        raise RuntimeError("git archive failed")
 
 
 def apply(root, m):
